@@ -111,6 +111,8 @@ def limit_jobs(prefix="lim", cmp=CMP_C01, modes=("steps", "run"), modes_extra=()
     i = 0
     for tag, script, stack, succ, flags in limit_cases():
         svs = SV if not succ else ("BASE",)
+        if "-reserved" in tag or "-unexec" in tag and tag[-2:] in ("62", "89", "8a", "bb", "fe"):
+            svs = tuple(x for x in svs if x != "TAPSCRIPT")      # OP_SUCCESSx there: no operation count, and the open finding of C01 applies
         for sv in svs:
             for mode in modes:
                 i += 1
